@@ -5,7 +5,7 @@ import json, os, subprocess
 def run(repo, spec, ground, repo_root):
     here = os.path.dirname(os.path.dirname(os.path.abspath(__file__)))
     tier = os.environ.get("VERIF_TIER_EFFECTIVE", "quick")
-    n = 400 if tier == "quick" else 6000
+    n = 1500 if tier == "quick" else 20000
     seed = int(os.environ.get("VERIF_SEED", "0"))
     p = subprocess.run(["/venv/bin/python", os.path.join(here, "rt", "c16_market_exposure.py"), "--repo", repo_root, "--n", str(n), "--seed", str(seed)],
                        capture_output=True, text=True, timeout=900)
